@@ -134,3 +134,17 @@ Example c06_example_run :
   end = true
   /\ run Gen.Facts.table (init_state false) [("LOGIN"%string, env_login)] = None.
 Proof. vm_compute. split; reflexivity. Qed.
+
+(** non-vacuity of the trace theorems: the run above ends authenticated with a
+    mailbox selected, and the accepted login the theorem promises is its LOGIN
+    line (second observation: on TLS after STARTTLS, backend 200, reply OK) *)
+Example c06_example_run_has_accepted_login :
+  match run Gen.Facts.table (init_state false)
+          [("STARTTLS"%string, env0); ("LOGIN"%string, env_login); ("SELECT"%string, env0); ("FETCH"%string, env_fetch)] with
+  | Some (st, tr) =>
+      c_auth st && c_sel st &&
+      forallb (fun o => Bool.eqb (String.eqb (o_word o) "LOGIN")
+                          (is_login (o_word o) && e_reply_ok (o_env o) && c_tls (o_pre o) && e_ok200 (o_env o))) tr
+  | None => false
+  end = true.
+Proof. vm_compute. reflexivity. Qed.
